@@ -121,8 +121,9 @@ def convert(infile, out_file_name, **options):  # type: (str, str, **str) -> Non
                         #        logger.error("ID Conflict, could not copy/merge frame " + frame.name + "  %xh " % frame.id + database)
                     for mergeOpt in merge_string[1:]:
                         if mergeOpt.split('=')[0] == "ecu":
+                            # direct_ecu_only would also delete the ecus of the matrix that is merged INTO
                             canmatrix.copy.copy_ecu_with_frames(
-                                mergeOpt.split('=')[1], db_temp_list[dbTemp], db)
+                                mergeOpt.split('=')[1], db_temp_list[dbTemp], db, direct_ecu_only=False)
                         if mergeOpt.split('=')[0] == "frame":
                             frame_to_copy = db_temp_list[dbTemp].frame_by_name(mergeOpt.split('=')[1])
                             if frame_to_copy is None:
